@@ -23,6 +23,8 @@ type zvC22Local struct {
 	APSend    bool  `json:"addpath_send"`
 	Role      uint8 `json:"role_cfg"` // PeerConfigRole*
 	Strict    bool  `json:"role_strict"`
+	IPv6      bool  `json:"ipv6_configured,omitempty"`      // the session also carries IPv6 unicast (advertised with the multiprotocol capability)
+	MPv4      bool  `json:"ipv4_multiprotocol,omitempty"` // IPv4 unicast is advertised with the multiprotocol capability too
 }
 
 type zvC22Remote struct {
@@ -34,6 +36,7 @@ type zvC22Remote struct {
 	AP      byte   `json:"addpath_sr"` // 0 none, 1 receive, 2 send, 3 both (IPv4 unicast)
 	Roles   []byte `json:"roles"`      // role capability values sent (RFC numbering)
 	Pack    string `json:"capability_packaging,omitempty"` // "" one Capabilities parameter | split | split-rev (one parameter per capability)
+	MP      byte   `json:"multiprotocol_caps,omitempty"`  // bit 0: IPv4 unicast, bit 1: IPv6 unicast multiprotocol capability sent
 }
 
 type zvC22Case struct {
@@ -83,6 +86,12 @@ func (c zvC22Case) open() zvwOpen {
 	}
 	if c.R.AP != 0 {
 		o.Caps = append(o.Caps, zvwCapAddPath(1, 1, c.R.AP))
+	}
+	if c.R.MP&1 != 0 {
+		o.Caps = append(o.Caps, zvwCapMP(1, 1))
+	}
+	if c.R.MP&2 != 0 {
+		o.Caps = append(o.Caps, zvwCapMP(2, 1))
 	}
 	for _, r := range c.R.Roles {
 		o.Caps = append(o.Caps, zvwCapRole(r))
@@ -178,6 +187,12 @@ func zvC22Locals(thorough bool) []zvC22Local {
 			}
 		}
 	}
+	// the multiprotocol capability: IPv6 configured or not, IPv4 multiprotocol advertised or not (plain background)
+	for _, ibgp := range []bool{false, true} {
+		for m := 1; m < 4; m++ {
+			ls = append(ls, zvC22Local{IBGP: ibgp, HoldS: 90, Role: PeerConfigRoleOff, IPv6: m&2 != 0, MPv4: m&1 != 0})
+		}
+	}
 	return ls
 }
 
@@ -191,6 +206,17 @@ func zvC22Remotes(l zvC22Local, thorough bool) []zvC22Remote {
 	roleSets := [][]byte{nil, {0}, {1}, {2}, {3}, {4}, {0, 3}, {4, 4}}
 	if l.Role == PeerConfigRoleOff || l.IBGP {
 		roleSets = [][]byte{nil, {3}}
+	}
+	if l.IPv6 || l.MPv4 {
+		// the multiprotocol dimension: every combination of the two capabilities x 4-octet capability x packaging
+		for _, cap4 := range []string{"absent", "cfg"} {
+			for mp := byte(0); mp < 4; mp++ {
+				for _, pk := range []string{"", "split"} {
+					rs = append(rs, zvC22Remote{Version: 4, AS2: as2s[0], Cap4: cap4, ID: "other", Hold: 90, MP: mp, Pack: pk})
+				}
+			}
+		}
+		return rs
 	}
 	for _, ver := range []byte{4, 3} {
 		for _, as2 := range as2s {
@@ -234,6 +260,7 @@ type zvC22Result struct {
 	APRX      bool
 	APTX      bool
 	ASN4      bool
+	MP4, MP6  bool // multiprotocol encoding enabled for IPv4 / IPv6 unicast
 	Status    vsched.Status
 	Crash     string
 }
@@ -242,7 +269,7 @@ func zvC22Run(c zvC22Case) zvC22Result {
 	var res zvC22Result
 	x := vsched.Exec(vsched.Config{MaxSteps: 50000}, func() {
 		w := zvNewWorld()
-		o := zvPeerOpts{Addr: 9, IBGP: c.L.IBGP, Hold: time.Duration(c.L.HoldS) * time.Second, AddPathRX: c.L.APRecv, Role: c.L.Role, RoleStrict: c.L.Strict}
+		o := zvPeerOpts{Addr: 9, IBGP: c.L.IBGP, Hold: time.Duration(c.L.HoldS) * time.Second, AddPathRX: c.L.APRecv, Role: c.L.Role, RoleStrict: c.L.Strict, IPv6: c.L.IPv6, MPv4: c.L.MPv4}
 		if c.L.APSend {
 			o.AddPathTX = 2
 		}
@@ -299,6 +326,10 @@ func zvC22Run(c zvC22Case) zvC22Result {
 		res.ASN4 = opt.Use32BitASN
 		if f.ipv4Unicast != nil {
 			res.APTX = !f.ipv4Unicast.addPathTX.BestOnly
+			res.MP4 = f.ipv4Unicast.multiProtocol
+		}
+		if f.ipv6Unicast != nil {
+			res.MP6 = f.ipv6Unicast.multiProtocol
 		}
 	})
 	res.Status, res.Crash = x.Status, x.Crash
@@ -369,6 +400,18 @@ func zvC22Check(r *vh.Run, c zvC22Case) {
 	if res.ASN4 && c.R.Cap4 == "absent" {
 		r.Violation(vh.Sig("clause", "asn4", "kind", kind), c, "4-octet AS encoding enabled although the peer did not advertise it")
 	}
+	if res.MP4 && !(c.L.MPv4 && c.R.MP&1 != 0) {
+		r.Violation(vh.Sig("clause", "multiprotocol", "family", "ipv4", "kind", kind), c, "multiprotocol encoding of IPv4 unicast enabled although not both sides advertised it (local %v, peer %v)", c.L.MPv4, c.R.MP&1 != 0)
+	}
+	if res.MP6 && !(c.L.IPv6 && c.R.MP&2 != 0) {
+		r.Violation(vh.Sig("clause", "multiprotocol", "family", "ipv6", "kind", kind), c, "multiprotocol encoding of IPv6 unicast enabled although not both sides advertised it (local %v, peer %v)", c.L.IPv6, c.R.MP&2 != 0)
+	}
+	if res.MP4 {
+		r.Count("mp4_on", 1)
+	}
+	if res.MP6 {
+		r.Count("mp6_on", 1)
+	}
 	if res.APRX {
 		r.Count("addpath_rx_on", 1)
 	}
@@ -384,15 +427,15 @@ func TestVerifC22(t *testing.T) {
 	r := vh.Start(t, "C22")
 	defer r.Finish()
 	r.Rule("cross product of the peer's OPEN (version x 2-octet AS {configured, other, AS_TRANS} x 4-octet capability {absent, configured, other} x identifier {0, ours, other} x hold time {0,1,2,3,4,90,65535} " +
-		"x add-path {none,recv,send,both} x role capabilities x capability packaging {one Capabilities parameter, one parameter per capability in either order}) with local configurations (iBGP/eBGP, 2-/4-octet peer AS, hold 3/90, add-path recv/send, role/strict); every case runs the real FSM from OpenSent under the virtual runtime; " +
+		"x add-path {none,recv,send,both} x multiprotocol capabilities {none, IPv4, IPv6, both} (against local configurations with IPv6 / IPv4-multiprotocol) x role capabilities x capability packaging {one Capabilities parameter, one parameter per capability in either order}) with local configurations (iBGP/eBGP, 2-/4-octet peer AS, hold 3/90, add-path recv/send, role/strict); every case runs the real FSM from OpenSent under the virtual runtime; " +
 		"non-trivial = cases in which the session was established and the negotiated values were compared")
-	r.Require("second_session_cases", "ref_rejects", "established", "addpath_rx_on", "addpath_tx_on", "asn4_on", "ref_rejects:hold time", "ref_rejects:peer AS", "ref_rejects:role pair")
+	r.Require("mp4_on", "mp6_on", "second_session_cases", "ref_rejects", "established", "addpath_rx_on", "addpath_tx_on", "asn4_on", "ref_rejects:hold time", "ref_rejects:peer AS", "ref_rejects:role pair")
 	if r.IsReplay() {
 		var c zvC22Case
 		r.ReplayCase(&c)
 		zvC22Check(r, c)
 		fmt.Printf("result: %+v\n", zvC22Run(c))
-		for _, k := range []string{"second_session_cases", "ref_rejects", "established", "addpath_rx_on", "addpath_tx_on", "asn4_on", "ref_rejects:hold time", "ref_rejects:peer AS", "ref_rejects:role pair"} {
+		for _, k := range []string{"mp4_on", "mp6_on", "second_session_cases", "ref_rejects", "established", "addpath_rx_on", "addpath_tx_on", "asn4_on", "ref_rejects:hold time", "ref_rejects:peer AS", "ref_rejects:role pair"} {
 			r.Count(k, 1)
 		}
 		return
